@@ -98,7 +98,7 @@ class _JudgeFirst:
 def run(ctx):
     jf = _JudgeFirst(ctx)
     ctx.trusted += [
-        "hand models TsVerif/C07/Model.lean of array.h and of the link_count control flow of stack_node_add_link (array model tied by correspondence through the unity build; add_link tied syntactically only)",
+        "hand models TsVerif/C07/Model.lean (array.h, stack_node_add_link) and Pools.lean (subtree/node pools, capture-list pool, external scanner state), each tied by correspondence with the real static functions through the unity build",
         "the counting/poisoning allocator installed through ts_set_allocator sees every allocation of the runtime (external scanners and the Rust side allocate elsewhere)",
         "sizes < 2^32",
     ]
